@@ -24,7 +24,7 @@ m = {
     "setup_cmd": "/venv/bin/python -m compileall -q /verif/vlib /verif/monitors /verif/ref >/dev/null; chmod +x /verif/check; /venv/bin/python /verif/tools/selfcheck.py",
     "hooks": {
         "guard": "EXECNET_VERIF",
-        "enable": "no source hooks: monitors attach from outside (injected ExecModel instances, sys.monitoring, IO tees, /proc); EXECNET_VERIF is read only by /verif's own injector modules",
+        "enable": "no source hooks in /repo: monitors attach from outside (injected ExecModel instances, sys.monitoring, IO tees, /proc). EXECNET_VERIF=noise:<seed>:<p>:<ms> is read only by /verif/vlib/inject/sitecustomize.py, which shards put on the PYTHONPATH of real worker processes to get line-level schedule noise inside them",
         "baseline_off_cmd": "cd /repo && /venv/bin/python -m pytest -ra -q -p no:cacheprovider --timeout=900 --continue-on-collection-errors",
         "source_commits": [],
         "add_only": True,
